@@ -106,7 +106,8 @@ func main() {
 	must(os.WriteFile(filepath.Join(*out, "header.v"), []byte(coqHeader()), 0o644))
 	must(os.WriteFile(filepath.Join(*out, "cases_proj.txt"), []byte(strings.Join(casesA, "\n")+nl(casesA)), 0o644))
 	must(os.WriteFile(filepath.Join(*out, "cases_exch.txt"), []byte(strings.Join(casesB, "\n")+nl(casesB)), 0o644))
-	ci, _ := json.Marshal(map[string]any{"proj": infoA, "exch": infoB})
+	must(os.WriteFile(filepath.Join(*out, "cases_ctor.txt"), []byte(strings.Join(ctorCases, "\n")+nl(ctorCases)), 0o644))
+	ci, _ := json.Marshal(map[string]any{"proj": infoA, "exch": infoB, "ctor": ctorInfo})
 	must(os.WriteFile(filepath.Join(*out, "case_index.json"), ci, 0o644))
 
 	da, _ := res.Extra["tierA_distinct"].(int)
